@@ -1071,11 +1071,47 @@ pub fn run(cfg: &RunCfg, agg: &Mutex<Agg>) {
 
 fn run_schedules(cfg: &RunCfg, agg: &Mutex<Agg>, seeds: &[u64]) {
     let exe = std::env::current_exe().expect("current_exe");
-    // sequential reference digests, computed up-front on this thread only
-    let reference: Vec<Vec<u64>> = seeds
-        .iter()
-        .map(|s| schedule(*s).iter().map(|(kind, rs, _)| role(*kind, *rs, false)).collect())
-        .collect();
+    // Sequential reference digests, computed up-front by ONE helper thread
+    // (watched: a role that does not even terminate when it runs alone is a
+    // deadlock in the trivial schedule, and must not take the monitor with it).
+    let (tx, rx) = mpsc::channel::<(usize, Vec<u64>)>();
+    let seeds_ref: Vec<u64> = seeds.to_vec();
+    let current = Arc::new(AtomicU64::new(0));
+    let cur = current.clone();
+    std::thread::spawn(move || {
+        for (i, s) in seeds_ref.iter().enumerate() {
+            let mut v = Vec::new();
+            for (kind, rs, _) in schedule(*s) {
+                cur.store(kind as u64, Ordering::SeqCst);
+                v.push(role(kind, rs, false));
+            }
+            if tx.send((i, v)).is_err() {
+                return;
+            }
+        }
+    });
+    let mut reference: Vec<Vec<u64>> = Vec::with_capacity(seeds.len());
+    while reference.len() < seeds.len() {
+        match rx.recv_timeout(Duration::from_secs(60)) {
+            Ok((_, v)) => reference.push(v),
+            Err(_) => {
+                let kind = current.load(Ordering::SeqCst) as usize;
+                let a = proc_all_sleeping(std::process::id());
+                std::thread::sleep(Duration::from_secs(1));
+                let b = proc_all_sleeping(std::process::id());
+                let mut out = CaseOut::default();
+                match (a, b) {
+                    (Some((true, c1)), Some((true, c2))) if c1 == c2 => out.violate(
+                        format!("C16:deadlock:sequential:{}", ROLE_NAMES[kind.min(N_ROLES - 1)]),
+                        format!("role {} run alone on one thread made no progress for 60 s, every thread of the process asleep and no CPU time consumed over 1 s", ROLE_NAMES[kind.min(N_ROLES - 1)]),
+                    ),
+                    _ => out.inconclusive.push(format!("sequential reference of role {} did not finish within 60 s (still running)", ROLE_NAMES[kind.min(N_ROLES - 1)])),
+                }
+                agg.lock().unwrap().absorb("schedules", seeds[reference.len()], out);
+                return;
+            }
+        }
+    }
     let next = AtomicU64::new(0);
     let deadlocks = AtomicU64::new(0);
     // build time of each table, as timed by the children so far (ns, last few)
